@@ -18,7 +18,7 @@ import minimise as M  # noqa
 PROPS = {
     # id: dict(level, quick runs, thorough seconds, variants quick, variants thorough, chunk)
     "C06": dict(level="exploration", quick=24000, thorough_s=600, vq=["asan"], vt=["asan", "asan-vblas", "asan-i64"], chunk=25),
-    "C07": dict(level="exploration", quick=8000, thorough_s=600, vq=["asan"], vt=["asan", "asan-vblas", "asan-i64"], chunk=20),
+    "C07": dict(level="exploration", quick=16000, thorough_s=600, vq=["asan"], vt=["asan", "asan-vblas", "asan-i64"], chunk=20),
     "C08": dict(level="fault_enumeration", quick=320, thorough_s=900, vq=["asan"], vt=["asan", "asan-vblas", "asan-i64"], chunk=2),
     "C09": dict(level="exploration", quick=10000, thorough_s=900, vq=["tsan", "asan"], vt=["tsan", "asan", "tsan-i64", "asan-vblas"], chunk=5),
     "C19": dict(level="exploration", quick=24000, thorough_s=900, vq=["asan"], vt=["asan", "asan-vblas", "asan-i64"], chunk=25),
@@ -587,7 +587,8 @@ def main():
             "simulated_time_note": "simulated clock = instrumented control-flow edges executed by the task x 1 ns; no real clock is read inside a run",
             "faults_fired": fault_counts,
             "reach_probes": probes,
-            "distinct_interleavings": int(st.get("distinct_interleavings_hint", 0)) if "distinct_interleavings_hint" in st else None,
+            "distinct_interleavings": len(ctx.dkeys) if prop == "C09" else None,
+            "context_switches": int(st.get("preempt_switches", 0)) if "preempt_switches" in st else None,
             "edge_coverage": {v: {"edges_hit_union": file_cov.get(v, {}).get("_union", h), "edges_total": t} for v, (h, t) in ctx.cov.items()},
             "edges_hit_per_source_file": {v: {k: n for k, n in fc.items() if k != "_union"} for v, fc in file_cov.items()},
             "variants": ctx.per_variant,
@@ -600,8 +601,9 @@ def main():
         "wall_s": round(wall, 2),
         "violations": len(reported),
     }
-    if evidence["coverage"]["distinct_interleavings"] is None:
-        del evidence["coverage"]["distinct_interleavings"]
+    for k_ in ("distinct_interleavings", "context_switches"):
+        if evidence["coverage"][k_] is None:
+            del evidence["coverage"][k_]
     if not args.no_evidence:
         os.makedirs(os.path.join(VERIF, "evidence"), exist_ok=True)
         with open(os.path.join(VERIF, "evidence", prop + ".json"), "w") as f:
